@@ -35,7 +35,8 @@ tvars == <<l, cfg, sc, c, sync, cur, exs, pcall, open, hist, clean>>
 Ev == Trc[l]
 NoCur == [open |-> FALSE, ex |-> 0, cmd |-> "", seq |-> "", val |-> <<>>, replies |-> <<>>, acks |-> 0]
 NoCall == [op |-> "", tok |-> <<>>, amt |-> <<>>]
-Cfg0 == [pre |-> <<>>, cur |-> <<>>, password |-> <<>>, tid |-> <<>>, timeout |-> 0, max |-> 0]
+\* slow: replies delayed by less than this many ms are the fault-free course (half the measured per-packet timeout)
+Cfg0 == [pre |-> <<>>, cur |-> <<>>, password |-> <<>>, tid |-> <<>>, timeout |-> 0, max |-> 0, slow |-> 0]
 
 SeqOfCmd(cmd) == CASE cmd = "Reservation" -> "Reservation" [] cmd \in {"PartialReversal", "PendingQuery"} -> "PartialReversal"
                    [] cmd = "PreAuthReversal" -> "PreAuthReversal" [] cmd = "EndOfDay" -> "EndOfDay" [] cmd = "ReadCard" -> "ReadCard"
@@ -142,8 +143,10 @@ Handled == \/ Ev.e \in {"reset", "call", "ret", "hang", "panic", "junk"}
 \* ... but a client that drops its connection in the middle of a call although the terminal did nothing to it (no injected fault, no
 \* refused or stalling connect, no late reply, no exchange the client itself left unfinished) is not fault-free behaviour: abnormal
 \* a late reply: any delay - except, while a card is being read, one that stays below the card time-out the caller configured (the
-\* terminal reports "insert card" again and again while nobody presents one: that is the fault-free course of read_card)
+\* terminal reports "insert card" again and again while nobody presents one: that is the fault-free course of read_card), and
+\* elsewhere one below half the per-packet timeout measured from the implementation (a terminal waiting for a PIN or for its host)
 LateTx == Ev.e = "tx" /\ "after_ms" \in DOMAIN Ev /\ ~(pcall.op = "read_card" /\ Ev.after_ms < 1000 * cfg.timeout)
+          /\ ~(pcall.op # "read_card" /\ Ev.after_ms < cfg.slow)
 Provoked == \/ Ev.e \in {"fault", "connect_stall", "connect_refused", "abandoned"}
             \/ LateTx
 TSkip == /\ ~Handled
